@@ -256,3 +256,59 @@ Proof.
 Qed.
 
 
+
+Lemma wres_eqb_eq a b : wres_eqb a b = true -> a = b.
+Proof.
+  destruct a as [| |[| |[]]], b as [| |[| |[]]]; cbn; intros; try discriminate; reflexivity.
+Qed.
+
+Lemma ps_ok_active p : ps_ok p = true -> active p = true -> g_ok p = true.
+Proof.
+  unfold ps_ok. intros H Ha. rewrite Ha in H. cbn in H.
+  apply andb_prop in H as [H _]. apply andb_prop in H as [H _]. exact H.
+Qed.
+Lemma ps_ok_internal p : ps_ok p = true -> cerr p = Some EInternal -> g_err p = true.
+Proof.
+  unfold ps_ok. intros H Ha. rewrite Ha in H. cbn in H.
+  apply andb_prop in H as [H _]. apply andb_prop in H as [_ H]. exact H.
+Qed.
+Lemma ps_ok_exit p x :
+  ps_ok p = true -> cerr p = Some (EExit x) -> wc p = WExit3 \/ wc p = WExited.
+Proof.
+  unfold ps_ok. intros H Ha. rewrite Ha in H. cbn in H.
+  apply andb_prop in H as [_ H].
+  destruct (wc p) as [| |[]| | | | | | | |]; auto;
+    repeat (apply andb_prop in H; destruct H as [H ?]); try discriminate;
+    repeat match goal with H : _ && _ = true |- _ => apply andb_prop in H; destruct H end;
+    discriminate.
+Qed.
+
+Lemma step_res s l s' :
+  Inv s -> step true l s = Some s' -> forall i r, wts s' i = ADone r -> ResultJustified s' r.
+Proof.
+  intros I H i' r' Hd.
+  assert (Hpre : wts s i' = ADone r' \/ ResultJustified s r').
+  { pose proof (inv_ps _ I) as Hps. pose proof (inv_map _ I) as Hm. pose proof (inv_h _ I) as Hh.
+    clear - H Hd Hps Hm Hh.
+    destruct l; step_inv H; cbn [wts set_w set_p set_wts remove_entry] in *; bool_hyps; auto;
+      try (left; revert Hd; unfold notify; destruct (wts s i') as [| | | |e' [|]| | | | |];
+           try (destruct (e' =? e)); intros Hd; try discriminate Hd; exact Hd);
+      unfold upd in Hd;
+      (destruct (Nat.eqb_spec i' i); [subst i'|now left]); right;
+      try (destruct got; try discriminate Hd);
+      try (destruct ret; try discriminate Hd);
+      try discriminate Hd; injection Hd as <-; cbn; auto.
+    all: try (match goal with Hw : wts ?s ?i = _ ?e |- exists _, _ /\ g_ok _ = true =>
+                assert (He : e < nps s) by (apply (Hh i); rewrite Hw; reflexivity);
+                exists e; split; [exact He|apply ps_ok_active; auto] end).
+    - unfold slot_at in *. destruct (pmap s) as [e|] eqn:Hpm; [|discriminate].
+      exists e. split; [auto|apply ps_ok_active; auto].
+    - unfold slot_at in *. destruct (pmap s) as [e|] eqn:Hpm; [|discriminate].
+      exists e. split; [auto|apply ps_ok_active; auto].
+    - assert (He : e < nps s) by (apply (Hh i); rewrite Heqw; reflexivity).
+      apply wres_eqb_eq in H0. subst r. unfold err_result.
+      destruct (cerr (pss s e)) as [[| |x]|] eqn:Hc; cbn; auto.
+      + exists e. split; [exact He|]. apply ps_ok_internal; auto.
+      + exists e. split; [exact He|]. split; [exact Hc|]. eapply ps_ok_exit; eauto. }
+  destruct Hpre as [Hpre|Hpre]; [apply (inv_res _ I) in Hpre|]; eapply RJ_mono; eauto.
+Qed.
